@@ -1,0 +1,111 @@
+//go:build verif
+
+package verifapi
+
+import "github.com/deepteams/webp/internal/lossless"
+
+// VP8L transform layer and LZ77 value codes of internal/lossless, re-exported
+// for the external verification harness (suite "ltransform").
+
+// LTransform mirrors lossless.Transform.
+type LTransform = lossless.Transform
+
+// Transform type codes as they appear in the bit stream.
+const (
+	LTypePredictor     = int(lossless.PredictorTransform)
+	LTypeCrossColor    = int(lossless.CrossColorTransform)
+	LTypeSubtractGreen = int(lossless.SubtractGreenTransform)
+	LTypeColorIndexing = int(lossless.ColorIndexingTransform)
+)
+
+// --- pixel helpers ---
+
+func LAddPixels(a, b uint32) uint32    { return lossless.VerifAddPixels(a, b) }
+func LSubPixels(a, b uint32) uint32    { return lossless.VerifSubPixels(a, b) }
+func LSubPixelsEnc(a, b uint32) uint32 { return lossless.VerifSubPixelsEnc(a, b) }
+func LAverage2Dec(a, b uint32) uint32  { return lossless.VerifAverage2(a, b) }
+func LAvg2Enc(a, b uint32) uint32      { return lossless.VerifAvg2(a, b) }
+
+func LSelectDec(l, t, tl uint32) uint32 { return lossless.VerifSelectPredictor(l, t, tl) }
+func LSelectEnc(l, t, tl uint32) uint32 { return lossless.VerifSelectPred(l, t, tl) }
+
+func LClampFullDec(a, b, c uint32) uint32 { return lossless.VerifClampedAddSubtractFull(a, b, c) }
+func LClampFullEnc(a, b, c uint32) uint32 { return lossless.VerifClampAddSubFull(a, b, c) }
+func LClampHalfDec(avg, c uint32) uint32  { return lossless.VerifClampedAddSubtractHalf(avg, c) }
+func LClampHalfEnc(avg, c uint32) uint32  { return lossless.VerifClampAddSubHalf(avg, c) }
+
+func LPredictPixel(mode int, l, t, tr, tl uint32) uint32 {
+	return lossless.VerifPredictPixel(mode, l, t, tr, tl)
+}
+func LPackMultipliers(g2r, g2b, r2b int8) uint32 { return lossless.VerifPackMultipliers(g2r, g2b, r2b) }
+func LApplyColorTransformPixel(tileWord, argb uint32) uint32 {
+	return lossless.VerifApplyColorTransformPixel(tileWord, argb)
+}
+
+// --- forward transforms ---
+
+// LSubtractGreen is lossless.SubtractGreen (in place).
+func LSubtractGreen(argb []uint32) { lossless.SubtractGreen(argb) }
+
+// LResidualImage is lossless.ResidualImage: the real predictor search followed
+// by copyImageWithPrediction; returns the chosen mode image and the residuals.
+func LResidualImage(argb []uint32, width, height, bits, quality int) (modes, residuals []uint32) {
+	return lossless.ResidualImage(argb, width, height, bits, quality, nil)
+}
+
+// LCopyImageWithPrediction is copyImageWithPrediction with an explicit mode image.
+func LCopyImageWithPrediction(argb []uint32, width, height, bits int, modes []uint32) []uint32 {
+	return lossless.VerifCopyImageWithPrediction(argb, width, height, bits, modes)
+}
+
+// LColorSpaceTransform is lossless.ColorSpaceTransform: the real multiplier
+// search fused with the in-place application; returns the multiplier image.
+func LColorSpaceTransform(argb []uint32, width, height, bits, quality int) []uint32 {
+	return lossless.ColorSpaceTransform(argb, width, height, bits, quality)
+}
+
+// LApplyColorTransform applies applyColorTransformTile with explicit multipliers.
+func LApplyColorTransform(argb []uint32, width, height, bits int, tiles []uint32) []uint32 {
+	return lossless.VerifApplyColorTransform(argb, width, height, bits, tiles)
+}
+
+// LColorIndexBuild is lossless.ColorIndexBuild.
+func LColorIndexBuild(argb []uint32, width, height int) ([]uint32, int, bool) {
+	return lossless.ColorIndexBuild(argb, width, height)
+}
+
+// LApplyPaletteTransform is lossless.ApplyPaletteTransform.
+func LApplyPaletteTransform(argb []uint32, width, height int, palette []uint32) ([]uint32, int) {
+	return lossless.ApplyPaletteTransform(argb, width, height, palette)
+}
+
+// --- inverse transforms ---
+
+func LInverseTransform(typ, bits, xsize, ysize int, data, in []uint32) []uint32 {
+	return lossless.VerifInverseTransform(lossless.TransformType(typ), bits, xsize, ysize, data, in)
+}
+
+// LApplyInverseTransforms runs (*Decoder).applyInverseTransforms.
+func LApplyInverseTransforms(ts []LTransform, pixels []uint32) []uint32 {
+	return lossless.VerifApplyInverseTransforms(ts, pixels)
+}
+
+func LExpandColorMap(numColors, bits int, palette []uint32) []uint32 {
+	return lossless.VerifExpandColorMap(numColors, bits, palette)
+}
+
+func LSubSampleSize(size, bits int) int { return lossless.VP8LSubSampleSize(size, bits) }
+
+// LMaxTransforms is the capacity of the decoder's transform array.
+const LMaxTransforms = lossless.NumTransforms
+
+// --- value codes ---
+
+func LPrefixEncode(d int) (code, extraBits, extraValue int) { return lossless.PrefixEncodeNoLUT(d) }
+func LPrefixEncodeBits(d int) (code, extraBits int)         { return lossless.PrefixEncodeBitsNoLUT(d) }
+func LGetCopyDistance(sym int, extra uint32) int            { return lossless.VerifGetCopyDistance(sym, extra) }
+func LGetCopyLength(sym int, extra uint32) int              { return lossless.VerifGetCopyLength(sym, extra) }
+func LDistanceToPlaneCode(xsize, dist int) int              { return lossless.DistanceToPlaneCode(xsize, dist) }
+func LPlaneCodeToDistance(xsize, code int) int              { return lossless.PlaneCodeToDistance(xsize, code) }
+func LCodeToPlane() []uint8                                 { t := lossless.CodeToPlane; return t[:] }
+func LPlaneToCodeLUT() []uint8                              { t := lossless.VerifPlaneToCodeLUT(); return t[:] }
